@@ -208,7 +208,7 @@ Proof. vm_compute. repeat split; reflexivity. Qed.
 (* ---------------------------------------------------------------------------------------------------------------
    The shape clause for the evaluators that were only decided per explored case (Proofs/Shape3_proofs.v,
    Proofs/ShapeElim_proofs.v, Proofs/TidemanIndex_proofs.v). *)
-From VL Require Model.Threshold Model.Hybrids Model.Elimination Proofs.Hybrids_proofs Proofs.Shape3_proofs Proofs.ShapeElim_proofs
+From VL Require Model.Threshold Model.Hybrids Model.Elimination Model.AllocScore Model.Quota Proofs.AllocScore_proofs Proofs.Hybrids_proofs Proofs.Shape3_proofs Proofs.ShapeElim_proofs
      Proofs.TidemanIndex_proofs.
 
 (* seatless selectors (thresholds, bracketers, Condorcet winner, Smith / Schwartz set): the right shape is a duplicate-free
@@ -332,6 +332,27 @@ Proof.
   exists r. split; [exact E|apply Shape2_proofs.nform_shape, Hf].
 Qed.
 
+(* positional selectors (Borda, Dowdall, ... : RankedToPositionalVotes in front of plurality), any rank scorer: the converter
+   answers on every such profile and its scores, handed to get_n_best, give exactly n entries in shape *)
+Theorem C08_shape_positional : forall (sc : Convert.scorer) (votes : Hybrids.rvotes) (n : nat),
+  ShapeElim_proofs.ranks_ok votes = true -> (1 <= n <= length (STV.all_ranked_candidates (Hybrids.qv votes)))%nat ->
+  exists d, Elimination.positional sc votes = Some d /\
+            sel_shape (STV.all_ranked_candidates (Hybrids.qv votes)) n (get_n_best Qle_bool d n).
+Proof.
+  intros sc votes n Hr Hn. destruct (ShapeElim_proofs.positional_nform sc votes n Hr Hn) as (d & E & Hf).
+  exists d. split; [exact E|apply Shape2_proofs.nform_shape, Hf].
+Qed.
+
+(* allocated score: the shape clause is false of the faithful model (Model/AllocScore.v) - three candidates level for two
+   seats come back as ONE tie entry (known finding C08-allocated-score-shape; the witness of C12_alloc_tie_shape_refuted) *)
+Theorem C08_shape_allocated_score_refuted : exists (votes : AllocScore.wprofile) (r : list (res C)),
+  AllocScore.alloc_select (Quota.QNamed 1) [] votes 2 = inl r /\ AllocScore.all_scored votes = [1; 2; 3]%positive /\
+  ~ sel_shape [1; 2; 3]%positive 2 r.
+Proof.
+  exists AllocScore_proofs.w_tie3, [TieR [1; 2; 3]%positive]. split; [exact AllocScore_proofs.alloc_tie_shape_witness|].
+  split; [vm_compute; reflexivity|]. intros [Hlen _]. discriminate Hlen.
+Qed.
+
 (* non-vacuity: a three-cycle above a fourth candidate with a shared rank satisfies the hypotheses; Benham and Tideman
    eliminate and elect; Baldwin fills one, two (the tied losers B, C for the second seat) and three seats; thresholds and
    Smith / Schwartz sets answer *)
@@ -382,3 +403,5 @@ Print Assumptions C08_shape_tideman.
 Print Assumptions C08_shape_tideman_outcomes.
 Print Assumptions C08_shape_tideman_multiseat_refuted.
 Print Assumptions C08_shape_baldwin.
+Print Assumptions C08_shape_positional.
+Print Assumptions C08_shape_allocated_score_refuted.
